@@ -199,7 +199,9 @@ def magnitudes(cfg, rng):
         d = gen.short(U, rng) if rng.random() < 0.8 else gen.value(U, rng)
         d = abs(d) or 1
         qmax = U.max // d
-        q = rng.choice((0, 1, qmax, qmax - 1 if qmax else 0, rng.randrange(qmax + 1)))
+        # quotients with structured digits (all-ones digits make the q-hat = B-1 branch hit exact ties when the remainder is zero)
+        qs = gen.extreme_digits(U, rng) >> (cfg.dbits * rng.randrange(cfg.n))
+        q = rng.choice((0, 1, qmax, qmax - 1 if qmax else 0, rng.randrange(qmax + 1), min(qs, qmax), min(qs, qmax), qs % (qmax + 1)))
         rem = rng.choice((0, 1, d - 1, rng.randrange(d)))
         u = q * d + rem
         if u > U.max:
